@@ -384,6 +384,22 @@ func vfFinish(t *testing.T, env *vfEnv, spec *vfSpec, part *vfPart, start time.T
 			firstReplay = append(firstReplay, fmt.Sprintf("VIOLATION property=%s replay=%s clause=%s detail=%q", v.Prop, v.Replay, v.Clause, vfTrunc(v.Detail, 300)))
 		}
 	}
+	sigCounts := map[string]int{}
+	for _, v := range part.Violations {
+		if vfKnownOpen(known, v.Prop, v.Sig) == nil {
+			key := v.Clause
+			if v.Sig != "" {
+				key = v.Sig
+			}
+			sigCounts[key]++
+		}
+	}
+	if len(sigCounts) > 0 {
+		cov["violation_classes"] = sigCounts
+		for k, n := range sigCounts {
+			fmt.Printf("NOTE: violation class %q x%d\n", k, n)
+		}
+	}
 	for sig, n := range seenKnown {
 		k := vfKnownOpen(known, spec.Prop, sig)
 		line := fmt.Sprintf("KNOWN-FINDING: property=%s %s [signature=%s occurrences=%d]", spec.Prop, k.What, sig, n)
@@ -742,3 +758,5 @@ func vfJSON(v interface{}) string {
 	b, _ := json.Marshal(v)
 	return string(b)
 }
+
+func vfUnJSON(b []byte, v interface{}) error { return json.Unmarshal(b, v) }
